@@ -676,7 +676,7 @@ fn main() {
     let miri = rep.is_miri();
     let threads = if miri { 1 } else { a.extra_u64("threads", a.pick(4u64, 16)) };
     // per thread: honest packets, of which the first `bits` get every single-bit flip
-    let (honest, bits, hand, garbage, n_random) = if miri { (1u64, 0u64, 2u64, 6u64, 3usize) } else { a.pick((500, 12, 2500, 4000, 24), (6_000, 120, 30_000, 50_000, 24)) };
+    let (honest, bits, hand, garbage, n_random) = if miri { (1u64, 0u64, 1u64, 3u64, 2usize) } else { a.pick((500, 12, 2500, 4000, 24), (6_000, 120, 30_000, 50_000, 24)) };
     std::thread::scope(|s| {
         for shard in 0..threads {
             let rep = &rep;
